@@ -628,7 +628,12 @@ class DataFieldBase(FieldBase, metaclass=ABCMeta):
         kwargs.setdefault("cmap", "gray")
         plt.imsave(filename, img["data"].T, origin="lower", **kwargs)
 
-    @cached_method()
+    @property
+    def _data_address(self) -> int:
+        """int: memory address of the field data, which invalidates cached helpers"""
+        return int(self._data_full.__array_interface__["data"][0])
+
+    @cached_method(extra_args=["_data_address"])
     def make_interpolator(
         self,
         *,
